@@ -175,6 +175,16 @@ def check_subtype(x: int, y: int) -> bool:
     global LAST_DIFF
     x = cs(x, -1, 2); y = cs(y, -1, 2)
     with notrace():
+        # ANOTHER model checked earlier in the same process has a class with the same key letters and association
+        # number but ONE subtype only: nothing learnt about it may be carried over to the model under test
+        m0 = xtuml.MetaModel(xtuml.IntegerGenerator())
+        m0.define_class('P', [('Id', UIDT)]); m0.define_class('X', [('Id', UIDT)])
+        m0.define_association(4, 'X', ['Id'], False, True, '', 'P', ['Id'], False, False, '').formalize()
+        P0 = [m0.new('P') for _ in range(2)]
+        xtuml.relate(m0.new('X'), P0[0], 4)
+    if xtuml.check_subtype_integrity(m0, 'P', 4) != 1:
+        LAST_DIFF = ('subtype count of the first model',); return False
+    with notrace():
         m = xtuml.MetaModel(xtuml.IntegerGenerator())
         m.define_class('P', [('Id', UIDT)]); m.define_class('X', [('Id', UIDT)]); m.define_class('Y', [('Id', UIDT)])
         m.define_association(4, 'X', ['Id'], False, True, '', 'P', ['Id'], False, False, '').formalize()
